@@ -3,6 +3,8 @@ package main
 import (
 	"fmt"
 	"go/token"
+
+	"golang.org/x/tools/go/ssa"
 )
 
 // splitExpr splits a clause into its conjuncts: A && B, G ==> (A && B), forall x :: (A && B).
@@ -52,4 +54,46 @@ func (f *frame) obligeClause(kind, name string, env *specEnv, cl *Clause, guard 
 		all = append(all, v.T)
 	}
 	return and(all...)
+}
+
+// lookupLocal resolves a source-level local variable name at a program point: among the recorded
+// uses/definitions of the variable whose block dominates `at`, the one closest to `at` wins (the
+// deepest dominator, the latest in its block). With at == nil the last recorded one wins.
+func (f *frame) lookupLocal(name string, at *ssa.BasicBlock) (ssa.Value, bool) {
+	var best *ssa.DebugRef
+	bestDepth, bestIdx := -1, -1
+	depth := func(b *ssa.BasicBlock) int {
+		n := 0
+		for x := b; x != nil; x = x.Idom() {
+			n++
+		}
+		return n
+	}
+	for _, d := range f.debugRefs[name] {
+		if _, isConst := d.X.(*ssa.Const); !isConst {
+			if _, have := f.vals[d.X]; !have {
+				if _, isParam := d.X.(*ssa.Parameter); !isParam {
+					continue
+				}
+			}
+		}
+		b := d.Block()
+		if at != nil && !b.Dominates(at) {
+			continue
+		}
+		idx := 0
+		for i, in := range b.Instrs {
+			if in == ssa.Instruction(d) {
+				idx = i
+			}
+		}
+		dp := depth(b)
+		if dp > bestDepth || (dp == bestDepth && idx > bestIdx) {
+			best, bestDepth, bestIdx = d, dp, idx
+		}
+	}
+	if best == nil {
+		return nil, false
+	}
+	return best.X, true
 }
